@@ -283,22 +283,170 @@ def ode_runs(res, tier):
                 viol(res, "ode-coupling", integrator=name, direction=sgn, error=err, t=sim.t)
 
 
+def state_of(sim):
+    s = []
+    for p in sim.particles:
+        s += [p.x, p.y, p.z, p.vx, p.vy, p.vz]
+    return s
+
+
+def encounter_runs(res, tier):
+    """the hybrid integrators inside their switching regime, both directions of time, against the harness RK4:
+       (a) every TRACE pericentre mode with the pericentre flag forced on, single large steps through a pericentre passage;
+       (b) a planet-planet close encounter (inside the switching radius) with TRACE and MERCURIUS."""
+    def peri_sys():
+        sim = rebound.Simulation()
+        sim.add(m=1.0)
+        sim.add(m=1e-3, a=1.0, e=0.9, f=-1.0)
+        sim.add(m=1e-3, a=3.0, e=0.1, f=1.0)
+        sim.move_to_com()
+        return sim
+    always = lambda r, j: 1  # noqa: E731
+    for sgn in (1, -1):
+        for dt in (0.3, 1.0):
+            base = peri_sys()
+            ref = rk4_nbody(state_of(base), [1.0, 1e-3, 1e-3], sgn * dt, 1e-4)
+            for mode, tol in (("FULL_BS", 1e-7), ("FULL_IAS15", 1e-7), ("PARTIAL_BS", 3e-3)):
+                sim = peri_sys()
+                sim.integrator = "trace"
+                sim.ri_trace.peri_mode = mode
+                sim.ri_trace.S_peri = always
+                sim.dt = sgn * dt
+                sim.steps(1)
+                got = state_of(sim)
+                e = max(abs(got[6 * i + k] - ref[6 * i + k]) for i in range(3) for k in range(3))
+                res["encounter_runs"] += 1
+                res["observed"]["trace forced pericentre %s dt=%+g" % (mode, sgn * dt)] = e
+                if not (e <= tol and sim.t == sgn * dt):
+                    viol(res, "trace-pericentre-step", integrator="trace", opts={"peri_mode": mode}, direction=sgn, dt=dt, error=e, tolerance=tol, t=sim.t)
+
+    def pair_sys():
+        sim = rebound.Simulation()
+        sim.add(m=1.0)
+        sim.add(m=1e-3, a=1.0, e=0.0)
+        sim.add(m=1e-3, a=1.15, e=0.0, f=0.1)
+        sim.move_to_com()
+        return sim
+    for sgn in (1, -1):
+        base = pair_sys()
+        ref = rk4_nbody(state_of(base), [1.0, 1e-3, 1e-3], sgn * 3.0, 2.5e-4)
+        for name in ("trace", "mercurius"):
+            sim = pair_sys()
+            sim.integrator = name
+            sim.dt = sgn * 0.01
+            sim.integrate(sgn * 3.0)
+            got = state_of(sim)
+            e = max(abs(got[6 * i + k] - ref[6 * i + k]) for i in range(3) for k in range(3))
+            res["encounter_runs"] += 1
+            res["observed"]["close pair %s dir%+d" % (name, sgn)] = e
+            if not e <= 1e-4:
+                viol(res, "close-encounter", integrator=name, opts={}, direction=sgn, error=e, tolerance=1e-4)
+
+
+def three_body():
+    masses = [1.0, 1e-3, 4e-4]
+    tmp = rebound.Simulation()
+    tmp.add(m=masses[0])
+    tmp.add(m=masses[1], a=1.0, e=0.1, inc=0.1, f=0.4)
+    tmp.add(m=masses[2], a=1.9, e=0.05, inc=0.05, Omega=1.0, f=2.0)
+    tmp.move_to_com()
+    s0 = []
+    for p in tmp.particles:
+        s0 += [p.x, p.y, p.z, p.vx, p.vy, p.vz]
+    return masses, s0
+
+
+def run_history(ops, masses, s0, T, nsteps):
+    """execute one Switch.tla history: Use(i) segments of equal length, "add" = add a massless particle far away"""
+    sim = rebound.Simulation()
+    for i, m in enumerate(masses):
+        sim.add(m=m, x=s0[6 * i], y=s0[6 * i + 1], z=s0[6 * i + 2], vx=s0[6 * i + 3], vy=s0[6 * i + 4], vz=s0[6 * i + 5])
+    sim.ri_bs.eps_rel = 1e-11
+    sim.ri_bs.eps_abs = 1e-11
+    sim.N_active = 3
+    uses = [o for o in ops if o != "add"]
+    seg = 0
+    nadd = 0
+    for o in ops:
+        if o == "add":
+            nadd += 1
+            sim.add(m=0.0, x=40.0 + 3 * nadd, y=1.0, z=0.5, vx=0.0, vy=0.15, vz=0.0)
+            continue
+        sim.synchronize()
+        sim.integrator = o
+        if o == "janus":
+            sim.ri_janus.recalculate_integer_coordinates_this_timestep = 1
+        sim.dt = T / nsteps
+        seg += 1
+        sim.integrate(T * seg / len(uses), exact_finish_time=1)
+    sim.synchronize()
+    out = []
+    for i in range(3):
+        p = sim.particles[i]
+        out += [p.x, p.y, p.z]
+    return out
+
+
+def switch_runs(res, hists, tier, seed):
+    """Switch.tla histories: the error of a history may not exceed what its integrators produce on their own"""
+    masses, s0 = three_body()
+    T, nsteps = 1.6, 384
+    ref = rk4_nbody(s0, masses, T, 2.5e-4)
+    refp = [ref[6 * i + k] for i in range(3) for k in range(3)]
+
+    def err(ops):
+        got = run_history(ops, masses, s0, T, nsteps)
+        return max(abs(a - b) for a, b in zip(got, refp))
+    integs = sorted({o for h in hists for o in h if o != "add"})
+    own = {i: err([i]) for i in integs}
+    res["observed"]["switch own errors"] = own
+    rng = random.Random(seed)
+    todo = [h for h in hists if len(h) <= 2 or (len(h) == 3 and "add" in h)]
+    rest = [h for h in hists if h not in todo]
+    rng.shuffle(rest)
+    todo += rest if tier == "thorough" else rest[:150]
+    only = os.environ.get("C01_SWITCH_ONLY")
+    if only:
+        todo = [h for h in hists if "add" in h and "bs" in h][:int(only)]
+    worst = 0.0
+    for h in todo:
+        try:
+            e = err(h)
+        except Exception as ex:  # noqa: BLE001
+            viol(res, "switch-history-failed", history=h, error=str(ex)[:120])
+            continue
+        bound = 30 * sum(own[o] for o in h if o != "add") + 1e-10
+        res["switch_runs"] += 1
+        worst = max(worst, e / bound)
+        if not e <= bound:
+            viol(res, "switch-history", history=h, error=e, bound=bound, integrator="/".join(h))
+    res["observed"]["switch worst error / bound"] = worst
+
+
 def main():
     table, out, seed, tier = sys.argv[1], sys.argv[2], int(sys.argv[3]), sys.argv[4]
-    res = {"mu_rows": 0, "valid_rows": 0, "two_body": 0, "order_runs": 0, "ode_runs": 0, "violations": [], "observed": {}}
-    mu, valid, adv = [], [], None
+    res = {"mu_rows": 0, "valid_rows": 0, "two_body": 0, "order_runs": 0, "ode_runs": 0, "switch_runs": 0, "encounter_runs": 0, "violations": [], "observed": {}}
+    mu, valid, adv, hists = [], [], None, []
     for ln in open(table):
         r = json.loads(ln)
         if r[0] == "MU":
             mu.append(r[1])
         elif r[0] == "VALID":
             valid.append(r[1])
+        elif r[0] == "H":
+            hists.append(r[1])
         else:
             adv = r[1]
+    if os.environ.get("C01_SWITCH_ONLY"):
+        switch_runs(res, hists, tier, seed)
+        json.dump(res, open(out, "w"))
+        return
     mu_rows(res, mu)
     valid_rows(res, valid)
+    switch_runs(res, hists, tier, seed)
     two_body(res, tier)
     order_runs(res, adv, tier)
+    encounter_runs(res, tier)
     ode_runs(res, tier)
     json.dump(res, open(out, "w"))
 
